@@ -1,1 +1,81 @@
 //! Verification hooks: opt (cfg `rten_verif`).
+//!
+//! Dumps the (optimized) graph of a loaded [`Model`] in a canonical text form so that the
+//! external correspondence harness in `/verif/harness/opt` can tell which fusions fired.
+//!
+//! One line per operator, in execution-plan order (all graph inputs -> all graph outputs;
+//! operators that are not needed for any graph output are listed afterwards in name order):
+//!
+//! ```text
+//! op <TAB> <operator type> <TAB> <node name or -> <TAB> <input names, comma separated> <TAB> <output names>
+//! ```
+//!
+//! Constants are written as `const:<rank>:<len>` followed by their name (if any), missing optional
+//! inputs/outputs as `_`, unnamed values as `#<id>`.  The last line is
+//! `outputs <TAB> <names of the graph outputs>`.
+use crate::graph::{Graph, Node, NodeId, PlanOptions};
+use crate::model::Model;
+
+fn value_name(graph: &Graph, id: Option<NodeId>) -> String {
+    let Some(id) = id else {
+        return "_".to_string();
+    };
+    match graph.get_node(id) {
+        Some(Node::Constant(c)) => format!(
+            "const:{}:{}:{}",
+            c.ndim(),
+            c.shape().iter().product::<usize>(),
+            c.name().unwrap_or("")
+        ),
+        Some(node) => match node.name() {
+            Some(name) if !name.is_empty() => name.to_string(),
+            _ => format!("#{}", id),
+        },
+        None => format!("?{}", id),
+    }
+}
+
+/// Canonical text dump of a graph (see module docs).
+pub fn dump_graph(graph: &Graph) -> String {
+    let mut lines = Vec::new();
+    let planned: Vec<NodeId> = graph
+        .execution_plan(graph.input_ids(), graph.output_ids(), PlanOptions::default())
+        .unwrap_or_default();
+    let mut rest: Vec<(String, NodeId)> = graph
+        .iter()
+        .filter(|(id, node)| matches!(node, Node::Operator(_)) && !planned.contains(id))
+        .map(|(id, node)| (node.name().unwrap_or("").to_string(), id))
+        .collect();
+    rest.sort();
+    for id in planned.iter().copied().chain(rest.into_iter().map(|(_, id)| id)) {
+        let Some(Node::Operator(op)) = graph.get_node(id) else {
+            continue;
+        };
+        let names = |ids: &[Option<NodeId>]| -> String {
+            ids.iter()
+                .map(|id| value_name(graph, *id))
+                .collect::<Vec<_>>()
+                .join(",")
+        };
+        lines.push(format!(
+            "op\t{}\t{}\t{}\t{}",
+            op.operator().name(),
+            op.name().filter(|n| !n.is_empty()).unwrap_or("-"),
+            names(op.input_ids()),
+            names(op.output_ids())
+        ));
+    }
+    let outs: Vec<String> = graph
+        .output_ids()
+        .iter()
+        .map(|id| value_name(graph, Some(*id)))
+        .collect();
+    lines.push(format!("outputs\t{}", outs.join(",")));
+    lines.join("\n")
+}
+
+/// Canonical text dump of the graph of a loaded model (after whatever optimization
+/// `ModelOptions` asked for).
+pub fn dump_model(model: &Model) -> String {
+    dump_graph(model.verif_graph())
+}
